@@ -7,8 +7,8 @@ git checkout -q -- . ; git apply "$sd/patch.diff" || { echo "$sd: PATCH-DOES-NOT
 cmake -S "$wt" -B "$wt/_build" -G Ninja -DCMAKE_BUILD_TYPE=RelWithDebInfo -DCMAKE_CXX_FLAGS=-Wno-error >/dev/null 2>&1
 cmake --build "$wt/_build" >/tmp/confirm_build.$$ 2>&1; b=$?
 t=$(OMPI_ALLOW_RUN_AS_ROOT=1 OMPI_ALLOW_RUN_AS_ROOT_CONFIRM=1 ctest --test-dir "$wt/_build" -j8 --timeout 900 2>&1 | grep "tests passed" | tr -d '\n')
-g++ -std=c++17 -I"$wt/include" "$sd/demo.cpp" -o /tmp/confirm_demo.$$ $DEMO_LIBS >/dev/null 2>&1; (timeout 60 /tmp/confirm_demo.$$ >/dev/null 2>&1); with=$?
+${CXX:-g++} -std=c++17 -I"$wt/include" "$sd/demo.cpp" -o /tmp/confirm_demo.$$ $DEMO_LIBS >/dev/null 2>&1; (timeout 60 /tmp/confirm_demo.$$ >/dev/null 2>&1); with=$?
 git checkout -q -- .
-g++ -std=c++17 -I"$wt/include" "$sd/demo.cpp" -o /tmp/confirm_demo.$$ $DEMO_LIBS >/dev/null 2>&1; (timeout 60 /tmp/confirm_demo.$$ >/dev/null 2>&1); without=$?
+${CXX:-g++} -std=c++17 -I"$wt/include" "$sd/demo.cpp" -o /tmp/confirm_demo.$$ $DEMO_LIBS >/dev/null 2>&1; (timeout 60 /tmp/confirm_demo.$$ >/dev/null 2>&1); without=$?
 rm -f /tmp/confirm_demo.$$ /tmp/confirm_build.$$
 echo "$sd: build=$b suite=[$t] demo_with_change=$with demo_without=$without"
